@@ -131,19 +131,19 @@ func planFor(prop, tier string) tierPlan {
 	switch prop {
 	case "C12":
 		if q {
-			return tierPlan{runs: 6400, batch: 200, capS: 150, minS: 40}
+			return tierPlan{runs: 64000, batch: 500, capS: 120, minS: 30}
 		}
-		return tierPlan{runs: 640000, batch: 1000, capS: 1800, minS: 120}
+		return tierPlan{runs: 4000000, batch: 2000, capS: 1800, minS: 120}
 	case "C17":
 		if q {
-			return tierPlan{runs: 3200, batch: 100, capS: 150, minS: 40, cross: 4}
+			return tierPlan{runs: 24000, batch: 250, capS: 120, minS: 30, cross: 8}
 		}
-		return tierPlan{runs: 320000, batch: 500, capS: 1800, minS: 120, cross: 32}
+		return tierPlan{runs: 1500000, batch: 1000, capS: 1800, minS: 120, cross: 48}
 	default:
 		if q {
-			return tierPlan{runs: 3200, batch: 100, capS: 150, minS: 60}
+			return tierPlan{runs: 8000, batch: 100, capS: 120, minS: 45}
 		}
-		return tierPlan{runs: 400000, batch: 250, capS: 2400, minS: 180}
+		return tierPlan{runs: 600000, batch: 250, capS: 2400, minS: 180}
 	}
 }
 
@@ -323,9 +323,14 @@ func cmdRun(args []string) int {
 	seenKey := map[string]bool{}
 	reported := 0
 	var knownLines []string
-	maxTriage := 8
+	maxTriage := 5
 	if *tier == "thorough" {
 		maxTriage = 20
+	}
+	triageStart := time.Now()
+	triageBudget := 150.0 // seconds of minimisation per run of the check; later violations are confirmed but not minimised
+	if *tier == "thorough" {
+		triageBudget = 900
 	}
 	printedKnown := map[string]bool{}
 	known := func(e *Finding, key, path string) {
@@ -341,6 +346,7 @@ func cmdRun(args []string) int {
 		}
 	}
 	skipped := 0
+	unreproduced := 0
 	for _, it := range found {
 		vs := append([]Violation{}, it.fv.Violations...)
 		sort.SliceStable(vs, func(i, j int) bool { return classPriority(&vs[i]) < classPriority(&vs[j]) })
@@ -358,15 +364,19 @@ func cmdRun(args []string) int {
 				skipped++
 				continue
 			}
-			rep := c.triage(it, v, plan.minS)
+			minS := plan.minS
+			if time.Since(triageStart).Seconds() > triageBudget {
+				minS = 0
+			}
+			rep := c.triage(it, v, minS)
 			if rep.Infra != "" {
 				fmt.Printf("HARNESS-NONDETERMINISM seed=%d run=%d: %s\n", *seed, it.fv.Script.Run, rep.Infra)
+				unreproduced++
 				if it.fv.RaceLog != "" {
 					fmt.Printf("race report seen by the worker:\n%s\n", clipShort(it.fv.RaceLog+strings.Repeat(" ", 1)))
 				}
 				dump, _ := json.Marshal(it.fv)
 				os.WriteFile(filepath.Join(*replays, fmt.Sprintf("unreproduced-%s-%d-%d.json", *prop, *seed, it.fv.Script.Run)), dump, 0o644)
-				exit = 2
 				continue
 			}
 			if seenKey[rep.Key] {
@@ -389,6 +399,11 @@ func cmdRun(args []string) int {
 				exit = 1
 			}
 		}
+	}
+	if unreproduced > 0 && exit == 0 {
+		// something was seen that could not be replayed: that is trouble with
+		// the machinery, not a verdict (confirmed violations keep exit 1)
+		exit = 2
 	}
 	if skipped > 0 {
 		fmt.Printf("vsim: %d further distinct unlisted violation key(s) were not minimised (limit %d per run of the check)\n", skipped, maxTriage)
@@ -484,10 +499,18 @@ func cmdReplay(args []string) int {
 		fmt.Printf("replay %s: the recorded violation does not occur on this tree (property=%s key=%s)\n", *file, rep.Property, rep.Key)
 		return 0
 	}
-	hit, eo, err := c.reproduces(rep.Script, &rep.Violation)
-	if err != nil {
-		fmt.Fprintln(os.Stderr, err)
-		return 2
+	attempts := 1
+	if rep.Property == "C17" {
+		attempts = 6 // the code under test may itself be nondeterministic: that is what C17 is about
+	}
+	var hit *Violation
+	var eo *ExecOut
+	for i := 0; i < attempts && hit == nil; i++ {
+		hit, eo, err = c.reproduces(rep.Script, &rep.Violation)
+		if err != nil {
+			fmt.Fprintln(os.Stderr, err)
+			return 2
+		}
 	}
 	if hit != nil {
 		fmt.Printf("VIOLATION property=%s replay=%s\n  key=%s\n  %s\n", rep.Property, *file, findingKey(rep.Property, hit), hit.Detail)
